@@ -1,6 +1,6 @@
 //! Operation alphabet of the arena explorer, with a textual form used in evidence samples and replay files.
 
-use crate::facade::{Region, TypedOp};
+use crate::facade::{Region, TypedOp, VecAct};
 use crate::mutcoll::{MutEnd, MutExtra, MutKind, MutSpec};
 use std::fmt;
 
@@ -57,6 +57,9 @@ pub enum Op {
     Dealloc { sel: Sel },
     /// `BumpAllocatorTyped::dealloc(BumpBox<[u8]> | BumpBox<[u64]>)` (blocks with align 1 / align 8 only)
     DeallocTyped { sel: Sel },
+    /// view the selected block (align 1 / align 8 only) as the buffer of a full `BumpVec<u8 | u64>` and let the vector
+    /// reallocate, shrink, convert or drop it: "a collection buffer" is a live block like any other
+    VecBuf { sel: Sel, act: VecAct, try_: bool },
     /// split the selected block in two live blocks (element-aligned boundary)
     Split { sel: Sel },
     Typed { op: TypedOp, try_: bool },
@@ -359,6 +362,18 @@ impl fmt::Display for Op {
             Op::Shrink { sel, to, align } => write!(f, "shrink:{sel}:{to}:{align}"),
             Op::Dealloc { sel } => write!(f, "dealloc:{sel}"),
             Op::DeallocTyped { sel } => write!(f, "dealloct:{sel}"),
+            Op::VecBuf { sel, act, try_ } => {
+                write!(f, "{}:{sel}:", if try_ { "tryvecbuf" } else { "vecbuf" })?;
+                match act {
+                    VecAct::Push => write!(f, "push"),
+                    VecAct::Reserve(n) => write!(f, "reserve:{n}"),
+                    VecAct::ReserveExact(n) => write!(f, "rsvexact:{n}"),
+                    VecAct::ExtendCopy(n) => write!(f, "extcopy:{n}"),
+                    VecAct::PopShrinkFit => write!(f, "popfit"),
+                    VecAct::PopIntoBoxed => write!(f, "popboxed"),
+                    VecAct::Drop => write!(f, "drop"),
+                }
+            }
             Op::Split { sel } => write!(f, "split:{sel}"),
             Op::Typed { op, try_ } => write!(f, "{}:{}", if try_ { "trytyped" } else { "typed" }, typed_str(op)),
             Op::ShrinkSlice { sel, to } => write!(f, "shrinkslice:{sel}:{to}"),
@@ -403,6 +418,20 @@ impl Op {
             "shrink" => Op::Shrink { sel: Sel::parse(parts.get(1)?)?, to: ShrinkTo::parse(parts.get(2)?)?, align: n(3)? },
             "dealloc" => Op::Dealloc { sel: Sel::parse(parts.get(1)?)? },
             "dealloct" => Op::DeallocTyped { sel: Sel::parse(parts.get(1)?)? },
+            "vecbuf" | "tryvecbuf" => Op::VecBuf {
+                sel: Sel::parse(parts.get(1)?)?,
+                try_: name == "tryvecbuf",
+                act: match *parts.get(2)? {
+                    "push" => VecAct::Push,
+                    "reserve" => VecAct::Reserve(n(3)?),
+                    "rsvexact" => VecAct::ReserveExact(n(3)?),
+                    "extcopy" => VecAct::ExtendCopy(n(3)?),
+                    "popfit" => VecAct::PopShrinkFit,
+                    "popboxed" => VecAct::PopIntoBoxed,
+                    "drop" => VecAct::Drop,
+                    _ => return None,
+                },
+            },
             "split" => Op::Split { sel: Sel::parse(parts.get(1)?)? },
             "typed" | "trytyped" => Op::Typed { op: typed_parse(parts.get(1)?)?, try_: name == "trytyped" },
             "shrinkslice" => Op::ShrinkSlice { sel: Sel::parse(parts.get(1)?)?, to: ShrinkTo::parse(parts.get(2)?)? },
